@@ -38,7 +38,7 @@ typedef struct job {
 static void job_run(job* j) {
     if (j->arm_fail) pv_w->fail_countdown = 1;
     /* evidence must survive the monitors: here the normalisers write their result and nothing else */
-    pv_w->norm_gentle = 1; pv_w->norm_invalid_empty = j->bad_utf;
+    { static unsigned rot; pv_w->norm_gentle = 1 + (int)(rot++ & 1); } pv_w->norm_invalid_empty = j->bad_utf;
     switch (j->api) {
     case A_CREATE: j->status = pv_api_create(j->features, &j->seed_out); break;
     case A_ENCODE: j->ret = pv_api_encode(j->seed, j->liblang, j->coin, j->out_str); break;
@@ -303,7 +303,9 @@ static bool build(const shape* sh, pv_rng* r, job* j, nset* S) {
         return true; }
     case A_DECODE: case A_DECODE_EXPLICIT: {
         char ph[4096];
-        const char* sep = (pv_randn(r, 2) && !strcmp(L->key, "jp")) ? L->sep : " ";
+        /* typed with ideographic spaces (every language accepts them: they normalise to the ASCII space) the phrase is longer than its
+         * normalised form, so a normaliser working in place leaves its last words behind the terminator of the result */
+        const char* sep = ((pv_randn(r, 2) && !strcmp(L->key, "jp")) || pv_randn(r, 3) == 0) ? "\xe3\x80\x80" : " ";
         if (sh->path == P_MULT_LANG) {
             if (sh->api != A_DECODE) return false;
             int b = -1;
